@@ -579,7 +579,11 @@ class AsyncFIXConnection:
         if FTag.MsgSeqNum not in msg:
             return "MsgSeqNum(34) tag is missing"
 
-        msg_seq_num = int(msg[FTag.MsgSeqNum])
+        seq_num = msg[FTag.MsgSeqNum]
+        if not (isinstance(seq_num, str) and seq_num.isascii() and seq_num.isdigit()):
+            # "+5", " 5", "0_5": int() would take them for a number
+            return "MsgSeqNum(34) is not a number"
+        msg_seq_num = int(seq_num)
         if msg_seq_num < self._session.next_num_in:
             _is_err = True
             if msg.msg_type == FMsg.SEQUENCERESET:
